@@ -33,7 +33,7 @@ SPEC = {
     "rule": ("grid cells (format string, output mode, input name) for one group - complete - plus random command lines "
              "with 2-4 groups; non-trivial = invocation with >= 1 format parameter or >= 2 groups or a rejected near-miss, "
              "judged against the model; distinct = distinct argv"),
-    "monitors": ["reject-before-assembly", "write-events", "content-equals-format-output", "printed-output", "process-exit-and-colour", "real-filesystem"],
+    "monitors": ["reject-before-assembly", "write-events", "content-equals-format-output", "printed-output", "process-exit-and-colour", "real-filesystem", "define-meaning"],
     "min_nontrivial": {"quick": 1500, "thorough": 20000},
     "assumptions": ["driver::drive is the same code the binary runs (hook H2 only makes it reachable from the library)"],
 }
@@ -48,6 +48,7 @@ x = 1
 k0 = 2
 val = 3
 .b = 4
+entry = end - 2
 start:
     ld x
     ld k0
@@ -55,9 +56,36 @@ start:
     #d8 val, val.b
 .loop:
     jmp start
+    #d8 entry
 end:
     #d16 0x1234
 """
+
+DEFAULTS = {"x": 1, "k0": 2, "val": 3, "val.b": 4, "entry": 9}
+
+
+def expected_program_bits(defs):
+    """What PROGRAM must assemble to under the given command-line defines (independent of customasm): None when a
+    define makes the program invalid or is outside this small model (non-integer, out of range, unknown name)."""
+    vals = dict(DEFAULTS)
+    seen = set()
+    for d in defs:
+        if d["name"] in seen:
+            continue                      # the first definition of a name wins
+        seen.add(d["name"])
+        if d["name"] not in vals or "int" not in d:
+            return None
+        t = d["int"].replace("_", "")
+        neg = t.startswith("-")
+        t = t.lstrip("-")
+        v = int(t[1:], 16) if t.startswith("$") else int(t[1:], 2) if t.startswith("%") else int(t, 0) if t[:2] in ("0x", "0b", "0o") else int(t)
+        vals[d["name"]] = -v if neg else v
+    if not (0 <= vals["x"] <= 255 and 0 <= vals["k0"] <= 255):
+        return None
+    if not all(-128 <= vals[k] <= 255 for k in ("val", "val.b", "entry")):
+        return None
+    b = [0x10, vals["x"], 0x10, vals["k0"], 0x20, 11, vals["val"] & 255, vals["val.b"] & 255, 0x20, 0, vals["entry"] & 255, 0x12, 0x34]
+    return bytes(b).hex()
 
 INPUT_NAMES = ["main.asm", "prog.txt", "dir/sub.asm", "noext", "a.b.c", "prog.bin", "x.mlb", ".hidden", "dir.d/file"]
 
@@ -221,6 +249,13 @@ def judge(ctx, worker, argv, model, files):
             return False
         ctx.count("assembly-failed-consistently")
         return True
+    want_hex = expected_program_bits(defs) if files.get(model["inputs"][0]) == PROGRAM and len(files) == 1 else None
+    if want_hex is not None:
+        ctx.monitor("define-meaning")
+        if (ref.get("out") or {}).get("hex") != want_hex:
+            ctx.violation("cli-model", {"kind": "defines-not-honoured", "static_optimisation": model["opt_static"]}, job,
+                          {"hex": want_hex, "defines": defs}, {"hex": (ref.get("out") or {}).get("hex")})
+            return False
     if not rec.get("drive_ok"):
         ctx.violation("cli-model", {"kind": "valid-command-line-rejected", "first": (lib.first_messages(rec, 1) or ["?"])[0][:50]}, job,
                       {"plan": plan}, lib.first_messages(rec))
